@@ -1,7 +1,4 @@
-//! `enc.*` and `impl.enc.*` operations (stub; filled in by the owner of this family).
-#![allow(unused_imports, dead_code)]
-use crate::util::*;
-
-pub fn run(_op: &str, _a: &[&str]) -> Option<String> {
-    None
+//! `enc.*` / `impl.enc.*` operations: header codecs (C08). Split over two modules.
+pub fn run(op: &str, a: &[&str]) -> Option<String> {
+    crate::enc_link::run(op, a).or_else(|| crate::enc_net::run(op, a))
 }
